@@ -630,6 +630,29 @@ def c25_where_value(n: int, a: int, b: int, c: int, v: int) -> bool:
     return finish(keep(r, xs, [x == v for x in vals]) and len(xs) == n)
 
 
+def c25_where_bool_value(n: int, a: int, b: int, c: int, v: bool) -> bool:
+    """
+    pre: 0 <= n <= 3
+    pre: 0 <= a <= 3 and 0 <= b <= 3 and 0 <= c <= 3
+    post: _
+    """
+    # an explicit target value of true / false selects the items whose property EQUALS it (Liquid equality:
+    # nil != false); property values come from {false, true, nil, 'x'} (numbers are left out: whether
+    # 0 equals false inside `where` is not documented)
+    if excluded("c25_where_bool_value", locals()):
+        return True
+    raw = [a, b, c][:n]
+    vals = []
+    for k in raw:
+        vals.append(False if k == 0 else True if k == 1 else None if k == 2 else "x")
+    xs = [{"k": vals[i], "id": i} for i in range(n)]
+    target = True if v else False
+    r = call(f_where, xs, "k", target)
+    r2 = call(f_reject, xs, "k", target)
+    ok = keep(r, xs, [x is target for x in vals]) and keep(r2, xs, [x is not target for x in vals])
+    return finish(ok and len(xs) == n)
+
+
 def c25_reject_value(n: int, a: int, b: int, c: int, v: int) -> bool:
     """
     pre: 0 <= n <= 3
@@ -1452,6 +1475,7 @@ CONDITIONS = [
     {"fn": "c25_concat", "quick": 30, "thorough": 90},
     {"fn": "c25_concat_undefined", "quick": 30, "thorough": 60},
     {"fn": "c25_map", "quick": 40, "thorough": 120},
+    {"fn": "c25_where_bool_value", "quick": 30, "thorough": 60},
     {"fn": "c25_where_value", "quick": 40, "thorough": 120},
     {"fn": "c25_reject_value", "quick": 40, "thorough": 120},
     {"fn": "c25_where_truthy", "quick": 40, "thorough": 120},
